@@ -310,7 +310,7 @@ package bkl
 //@   uses appNil, snocApp, appAssoc
 //@   ensures (=> (not (isErr err))
 //@              (exists ((h (Array Int Val)) (ds RLst))
-//@                 (and (not (candsBad h ds)) (not (emitErr (candsL h ds))) (= res (VList (emitF (candsL h ds)))))))   [C11] [C07]
+//@                 (and (not (candsBad h ds)) (not (emitErr (candsL h ds))) (= res (VList (emitF (candsL h ds)))))))   [C11] [C07] [C06]
 //@   loop 1
 //@     invariant ((_ is VList) outs)
 //@     invariant (= (app (ls outs) (candsL (heap Document.Data) rest)) (candsL (heap Document.Data) docs))
@@ -710,11 +710,18 @@ package bkl
 //@                   (=> (not (isErr err)) (= res (select (mapOf (EvalContext.Vars ec)) obj)))))
 //@   ensures (=> (and (not (and (str.prefixof "$""" obj) (str.suffixof """" obj))) (not (str.prefixof "$env:" obj)) (not (= obj "$repeat")))   [C13]
 //@              (and (not (isErr err)) (= res (VStr obj))))
+//@   ensures (= (isErr err) (p2sE (heap Document.Data) (Document.Data mergeFrom) mergeFromDocs (mapOf (EvalContext.Vars ec)) obj depth))          [C13]
+//@   ensures (=> (not (isErr err)) (= res (p2sF (heap Document.Data) (Document.Data mergeFrom) mergeFromDocs (mapOf (EvalContext.Vars ec)) obj depth)))   [C13]
 //@ func process2StringInterp(obj, mergeFrom, mergeFromDocs, ec, depth) (res, err)
 //@   decreases (- 1002 depth) 0
-//@   closure 1
-//@     guarantees (=> (isErr err@entry) (isErr err))                                                       [C13]
-//@     guarantees (=> (isErr err) (= result "{ERROR}"))                                                   [C13]
+//@   uses sappNil, ssnocApp
+//@   ensures (= (isErr err) (interpE (heap Document.Data) (Document.Data mergeFrom) mergeFromDocs (mapOf (EvalContext.Vars ec)) obj depth))       [C13]
+//@   ensures (=> (not (isErr err)) (= res (interpF (heap Document.Data) (Document.Data mergeFrom) mergeFromDocs (mapOf (EvalContext.Vars ec)) obj depth)))   [C13]
+//@   call verifReplaceAllStringFunc#1
+//@     invariant (= (or (isErr err) (anyRefE (heap Document.Data) (Document.Data mergeFrom) mergeFromDocs (mapOf (EvalContext.Vars ec)) rest depth))
+//@                  (anyRefE (heap Document.Data) (Document.Data mergeFrom) mergeFromDocs (mapOf (EvalContext.Vars ec)) (sitems matches) depth))
+//@     invariant (=> (not (isErr err)) (= (sapp (sitems reps) (mapRef (heap Document.Data) (Document.Data mergeFrom) mergeFromDocs (mapOf (EvalContext.Vars ec)) rest depth))
+//@                                        (mapRef (heap Document.Data) (Document.Data mergeFrom) mergeFromDocs (mapOf (EvalContext.Vars ec)) (sitems matches) depth)))
 
 //@ func Parser.loadFile(p, path, child) (res, err)
 //@   property C18
@@ -948,10 +955,8 @@ package bkl
 //@ func getWithVar(doc, docs, ec, m) (res, err)
 //@   borrowed
 //@   ensures (=> ((_ is VStr) m)                                                                             [C13]
-//@              (or (and (not (isErr err)) (strPathOK (heap Document.Data) (Document.Data doc) docs (sv m) res false))
-//@                  (and (strPathOK (heap Document.Data) (Document.Data doc) docs (sv m) VNil true)
-//@                       (= (isErr err) (= (select (mapOf (EvalContext.Vars ec)) (sv m)) VAbsent))
-//@                       (=> (not (isErr err)) (= res (select (mapOf (EvalContext.Vars ec)) (sv m)))))))
+//@              (and (= (isErr err) (gwvE (heap Document.Data) (Document.Data doc) docs (mapOf (EvalContext.Vars ec)) (sv m)))
+//@                   (=> (not (isErr err)) (= res (gwvF (heap Document.Data) (Document.Data doc) docs (mapOf (EvalContext.Vars ec)) (sv m))))))
 
 // ------------------------------------------------------------------------------------------------- process2.go ($encode helpers, C14)
 
